@@ -87,6 +87,11 @@ def bcGet (cfg : Cfg) (sc : SCache) (bc : KV VNode) (prev key : Nat) : SCache ×
   | some .deleted => (sc, .miss)
   | none => scGet cfg sc key prev
 
+/-- the clone a lower layer takes of a node handed down (`v.data = v.data.Clone()`) -/
+def clNode (cfg : Cfg) : VNode → VNode
+  | .val d => .val (cfg.clone d)
+  | .deleted => .deleted
+
 /-- `StateCache.commit(bc)`: nothing if the block hash is already committed; otherwise every node of the
 block cache is added under the block hash and the previous-hash link is recorded. -/
 def scCommit (cfg : Cfg) (sc : SCache) (bc : KV VNode) (hash prev : Nat) : SCache :=
@@ -95,18 +100,12 @@ def scCommit (cfg : Cfg) (sc : SCache) (bc : KV VNode) (hash prev : Nat) : SCach
   | none =>
     let cache := bc.foldl (fun (c : KV (KV VNode)) (kv : Nat × VNode) =>
       let bvs : KV VNode := (c.get kv.1).getD []
-      let v := match kv.2 with
-        | .val d => VNode.val (cfg.clone d)
-        | .deleted => VNode.deleted
-      c.set kv.1 (bvs.set hash v)) sc.cache
+      c.set kv.1 (bvs.set hash (clNode cfg kv.2))) sc.cache
     { cache := cache, hashes := sc.hashes.set hash prev }
 
 /-- `TransactionCache.Commit()`: `main.setValue(key, value)` for every entry (the block cache clones) -/
 def tcCommit (cfg : Cfg) (tc bc : KV VNode) : KV VNode :=
-  tc.foldl (fun (b : KV VNode) (kv : Nat × VNode) =>
-    b.set kv.1 (match kv.2 with
-      | .val d => VNode.val (cfg.clone d)
-      | .deleted => VNode.deleted)) bc
+  tc.foldl (fun (b : KV VNode) (kv : Nat × VNode) => b.set kv.1 (clNode cfg kv.2)) bc
 
 /-! ### the world: committed blocks, the state cache, one block execution with at most one open transaction -/
 
